@@ -47,6 +47,13 @@ import (
 // shutdown must finalize the pipeline, not race the shutdown with a restart.
 var errGracefulShutdownDuringRecovery = cerrors.New("graceful shutdown during recovery backoff")
 
+// errUserStopDuringRecovery is the same kind of internal sentinel for a user's
+// graceful Stop that was accepted while the pipeline was parked in the recovery
+// backoff wait: the cleanup goroutine maps it to a terminal StatusUserStopped.
+// Without it Stop reports success (it arms the already-finished run) and the
+// backoff then restarts the pipeline the user has just stopped.
+var errUserStopDuringRecovery = cerrors.New("user stop during recovery backoff")
+
 type FailureEvent struct {
 	// ID is the ID of the pipeline which failed.
 	ID    string
@@ -1627,6 +1634,14 @@ func (s *Service) runPipeline(rp *runnablePipeline) error {
 					if updateErr := s.pipelines.UpdateStatus(ctx, rp.pipeline.ID, pipeline.StatusSystemStopped, ""); updateErr != nil {
 						return updateErr
 					}
+				case cerrors.Is(recoveryErr, errUserStopDuringRecovery):
+					// The user stopped the pipeline while we were parked in
+					// the backoff wait. Finalize as a user stop and run the
+					// cleanup tail so the entry is removed.
+					err = nil
+					if updateErr := s.pipelines.UpdateStatus(ctx, rp.pipeline.ID, pipeline.StatusUserStopped, ""); updateErr != nil {
+						return updateErr
+					}
 				default:
 					// Recovery is exhausted (MaxRetries) or itself errored.
 					s.logger.
@@ -1806,6 +1821,13 @@ func (s *Service) StartWithBackoff(ctx context.Context, rp *runnablePipeline) er
 	// concurrent restart still wins.
 	if s.isGracefulShutdown.Load() {
 		return errGracefulShutdownDuringRecovery
+	}
+
+	// Same for a user's Stop that was accepted during the wait: it set the
+	// deliberate-stop marker on this (already finished) run, see
+	// stopRunnablePipeline.
+	if rp.intentionalStop.Load() {
+		return errUserStopDuringRecovery
 	}
 
 	return s.Start(ctx, rp.pipeline.ID)
